@@ -1,19 +1,35 @@
 (* C07 property theorems only: each closed by `exact <lemma>` with Print Assumptions beneath.
-   Every statement is spelled out here (it is convertible to the `*_statement` definition of Proofs.v, where the
+   Every statement is spelled out here (it is convertible to the `*_statement` definitions of Proofs.v, where the
    comments explaining each clause live).  Over R: `Rops` is the real-number instance of the operations record.
 
-   C07_face_normal_rotation_refuted is a recorded finding (known_findings.d/C07.json): the normal of a skew quad
-   depends on where its vertex list starts. *)
+   C07_definitions: second conjunct = textbook areas of planar CONVEX quads / n-gons (hypotheses convex_quad / convex_fan
+     are visible in the statement), global sums and means, per-vertex quantities, mesh-level cotangent weight.
+   C07_renumbering_partial - what is proved: (a) vertex renumbering sigma keeping the ORDER of the face list, of each face's
+     vertex list and of the edge list (edges may be stored swapped); (b) rotating one face's vertex list: area of every
+     polygon, normal/cotangents of a triangle, barycentre; (c) permuting and rotating the face list for the faces->vertices
+     accumulation with values and weights CARRIED ALONG.  GAPS (tested by the oracle / correspondence only):
+       - a renumbered mouette mesh stores its edges in another order: degree / defects are proved for the same edge order only;
+       - cotan_weights, mean_* (n=None), barycenter, euler, face_circumcenter, vertices->faces, corners->faces and the two
+         scatters are not in the conclusion of (a);
+       - that the mesh's OWN corner angles / areas / normals rotate with a rotated face is stated for triangles and for the
+         area only (face_corner_pairs of a rotated polygon is not), so (c) is not instantiated with model-computed weights;
+       - angle_defects, cotan_weights, corners->vertices, total_area under face reordering.
+   C07_circumcenter is conditional on a point being returned (the relative parallelism guard can return None for a
+     needle-thin triangle); no totality statement.
+   In C07_rigid_invariance / C07_scaling the angle_defects and vertex_normals clauses take the SAME angle list on both sides:
+     they say these functions do not read coordinates otherwise; invariance of the angle values is the corner_pairs clause.
+   The two `_refuted` theorems are recorded findings (known_findings.d/C07.json). *)
 From Coq Require Import ZArith List Bool Reals.
 Require Import MV.Lib.Base MV.C07.Model MV.C07.Gen MV.C07.Mesh MV.C07.Proofs_Base MV.C07.Proofs_Rigid MV.C07.Proofs_MeshRigid
   MV.C07.Proofs_Angles MV.C07.Proofs_Interp MV.C07.Proofs_GB MV.C07.Proofs_Renum MV.C07.Proofs_Count MV.C07.Proofs_GBfull
   MV.C07.Proofs_Findings MV.C07.Proofs_Circum MV.C07.Proofs_Keyed MV.C07.Proofs_RenumV MV.C07.Proofs_FacePerm
-  MV.C07.Proofs_FanRot MV.C07.Proofs_RenumFull MV.C07.Proofs_MeshScale MV.C07.Proofs_C2F MV.C07.Proofs.
+  MV.C07.Proofs_FanRot MV.C07.Proofs_RenumFull MV.C07.Proofs_MeshScale MV.C07.Proofs_C2F MV.C07.Proofs_Convex
+  MV.C07.Proofs_Global MV.C07.Proofs.
 Import ListNotations.
 Open Scope R_scope.
 
 Theorem C07_definitions :
-  (forall a b : V3, cross a b = (vy a * vz b - vz a * vy b, vz a * vx b - vx a * vz b, vx a * vy b - vy a * vx b)) /\
+(  (forall a b : V3, cross a b = (vy a * vz b - vz a * vy b, vz a * vx b - vx a * vz b, vx a * vy b - vy a * vx b)) /\
   (forall A B : V3, g_edge_length Rops A B =
        sqrt ((vx B - vx A) * (vx B - vx A) + (vy B - vy A) * (vy B - vy A) + (vz B - vz A) * (vz B - vz A))) /\
   (forall A B : V3, g_edge_middle Rops A B = ((vx A + vx B) / 2, (vy A + vy B) / 2, (vz A + vz B) / 2)) /\
@@ -41,8 +57,45 @@ Theorem C07_definitions :
   (forall (pi d a : R) (onb zb : bool),
        g_defect_init Rops pi = 2 * pi /\ g_defect_border Rops false pi = pi /\ g_defect_border Rops true pi = 0 /\
        g_defect_skip onb zb = (onb && zb)%bool /\ g_defect_step Rops d a = d - a) /\
-  (forall v e f : Z, g_euler v e f = (v - e + f)%Z).
-Proof. exact definitions_proof. Qed.
+  (forall v e f : Z, g_euler v e f = (v - e + f)%Z)) /\
+(  (* planar convex quad: half the norm of the cross product of the diagonals *)
+  (forall nh A B C D : V3, convex_quad nh A B C D -> g_quad_area Rops A B C D = norm Rops (cross (C -v A) (D -v B)) / 2) /\
+  (* n-gon (>= 5 vertices): the fan about the barycentre; planar convex: half the norm of the shoelace vector area *)
+  (forall pts : list V3, (5 <= zlen pts)%Z ->
+     g_face_area Rops pts = Rsum (map (fun pq => g_triangle_area Rops (fst pq) (snd pq) (g_face_bary Rops pts)) (cyc_pairs pts)) /\
+     (forall nh, convex_fan nh pts -> g_face_area Rops pts = norm Rops (shoelace2 pts) / 2)) /\
+  (* barycentres: the sum of the points divided by their number *)
+  (forall pts : list V3, g_face_bary Rops pts = vdiv Rops (vsum Rops pts) (IZR (zlen pts)) /\
+                         g_cell_bary Rops pts = vdiv Rops (vsum Rops pts) (IZR (zlen pts)) /\
+                         g_barycenter Rops pts = vdiv Rops (vsum Rops pts) (IZR (zlen pts))) /\
+  (* means: the first k = min(n, count) values, divided by k; n beyond the count gives the mean of all *)
+  (forall (m : mesh R) (n : option Z),
+     mean_edge_length Rops m n = fold_left Rplus (firstn (Z.to_nat (mean_k n (edges m))) (edge_length Rops m)) 0 / IZR (mean_k n (edges m)) /\
+     mean_face_area Rops m n = fold_left Rplus (firstn (Z.to_nat (mean_k n (faces m))) (face_area Rops m)) 0 / IZR (mean_k n (faces m)) /\
+     mean_cell_volume Rops m n = fold_left Rplus (firstn (Z.to_nat (mean_k n (cells m))) (cell_volume Rops m)) 0 / IZR (mean_k n (cells m)) /\
+     total_area Rops m = fold_left Rplus (face_area Rops m) 0) /\
+  (forall (A : Type) (l : list A) (n : Z), (zlen l <= n)%Z -> mean_k (Some n) l = mean_k None l) /\
+  (* degree: the number of edge ends at the vertex *)
+  (forall (m : mesh R) (v : Z),
+     (forall e, In e (edges m) -> (0 <= fst e < zlen (verts m))%Z /\ (0 <= snd e < zlen (verts m))%Z) ->
+     znth (degree m) v 0%Z
+     = fold_left (fun acc x => if (x =? v)%Z then (acc + 1)%Z else acc) (flat_map (fun e => [fst e; snd e]) (edges m)) 0%Z) /\
+  (* vertex normals: the weighted sum of the face normals, made unit *)
+  (forall x : V3, g_vertex_normal_finish Rops x = normalized Rops x /\ (0 < n2 x -> n2 (g_vertex_normal_finish Rops x) = 1)) /\
+  (forall w ang (m : mesh R), vertex_normals Rops w ang m
+     = map (normalized Rops) (interpolate_faces_to_vertices Rops (vzero Rops) (vadd Rops) (vscale Rops) (vdiv Rops) w
+                                (face_area Rops m) ang m (face_normals Rops m))) /\
+  (* angle defect of a vertex: 2 pi (inside) / pi (border) minus the corner angles at the vertex; 0 on the border if zero_border *)
+  (forall (zb : bool) (pi : R) (ang : list R) (m : mesh R) (v : Z),
+     (forall F, In F (faces m) -> forall u, In u F -> (0 <= u < zlen (verts m))%Z) -> (0 <= v < zlen (verts m))%Z ->
+     let on_border := znth (border_flags m) v false in
+     let angle_sum := Rsum (map (fun cf => znth ang (fst cf) 0) (corners_at (enumerate (corners (faces m))) v)) in
+     znth (angle_defects Rops zb pi ang m) v 0 = if on_border then (if zb then 0 else pi - angle_sum) else 2 * pi - angle_sum) /\
+  (* cotangent weight of an edge: for each of its two half-edges that exists, half the cotangent at the opposite corner *)
+  (forall (m : mesh R), cotan_weights Rops m = map (cw_edge Rops (faces m) (half_edges (faces m)) (cotangent Rops m)) (edges m)) /\
+  (forall fs hes cot (e : Z * Z),
+     cw_edge Rops fs hes cot e = half_edge_term fs hes cot (fst e) (snd e) + half_edge_term fs hes cot (snd e) (fst e))).
+Proof. exact definitions_full_proof. Qed.
 Print Assumptions C07_definitions.
 
 Theorem C07_rigid_invariance :
@@ -120,7 +173,7 @@ Theorem C07_scaling :
 Proof. exact scaling_proof. Qed.
 Print Assumptions C07_scaling.
 
-Theorem C07_renumbering :
+Theorem C07_renumbering_partial :
   (* (a) renumbering the vertices by sigma (injective on the vertex range); the renumbered mesh may store an edge in
          either orientation.  Per-edge/face/corner/cell attributes are unchanged, per-vertex attributes move with sigma *)
   (forall (m m' : mesh R) (sigma : Z -> Z) (sw : Z * Z -> bool), wf_mesh m ->
@@ -174,7 +227,7 @@ Theorem C07_renumbering :
      interpolate_faces_to_vertices Rops (vzero Rops) (vadd Rops) (vscale Rops) (vdiv Rops) w (d_areas D') (d_angs D') mm' (d_vals D')
      = interpolate_faces_to_vertices Rops (vzero Rops) (vadd Rops) (vscale Rops) (vdiv Rops) w (d_areas D) (d_angs D) mm (d_vals D)).
 Proof. exact renumbering_proof. Qed.
-Print Assumptions C07_renumbering.
+Print Assumptions C07_renumbering_partial.
 
 Theorem C07_angle_sum :
   (forall (m : mesh R) (a b c : Z), face_corner_pairs Rops m [a; b; c]
@@ -230,4 +283,11 @@ Theorem C07_face_normal_rotation_refuted :
     g_face_normal Rops A B C <> g_face_normal Rops B C D.
 Proof. exact face_normal_rotation_refuted. Qed.
 Print Assumptions C07_face_normal_rotation_refuted.
+
+Theorem C07_nonconvex_face_refuted :
+  let A := (0, 0, 0) in let B := (2, 1, 0) in let C := (4, 0, 0) in let D := (2, 4, 0) in
+  norm Rops (cross (C -v A) (D -v B)) / 2 = 6 /\ g_quad_area Rops A B C D = 8 /\
+  g_face_normal Rops A B C = (0, 0, -1) /\ g_face_normal Rops B C D = (0, 0, 1).
+Proof. exact nonconvex_face_refuted. Qed.
+Print Assumptions C07_nonconvex_face_refuted.
 
